@@ -2,6 +2,7 @@
 C05 — Define'd parameters and ModelAlias'd models mean exactly their expansion.
 -/
 import DL.Lemmas.Dict
+import DL.Lemmas.Subst
 namespace DL
 
 /-- the last definition of a name wins, wherever in the file the definitions are placed -/
@@ -68,5 +69,153 @@ theorem C05_position_free (d d' : Doc) (h1 : decayBlocks d = decayBlocks d')
     (h4 : copyPairs d = copyPairs d') : tablesNoCC d = tablesNoCC d' := by
   unfold tablesNoCC tablesDecay dictDefinitions dictModelAliasesRaw dictDecays2Copy
   rw [h1, h2, h3, h4]
+
+
+/-! ### whole-file form: replacing every use of a Define'd name / ModelAlias label by its text -/
+
+/-- the textual negation of a numeral reads to the negated value -/
+theorem C05_negLit (s : String) (q : Rat) (h : numValue s = some q) : numValue (negLit s) = some (-q) :=
+  numValue_negLit s q h
+
+/-- the value of a defined name is the value of the literal text of its last `Define` -/
+theorem C05_define_text (d : Doc) (w : String) :
+    dget (dictDefinitions d) w = (dget (defineTexts d) w).bind numValue :=
+  dictDefinitions_eq_texts d w
+
+/-- the rewriting leaves the Define and ModelAlias statements (hence the dictionaries) as they are -/
+theorem C05_expand_dicts (d : Doc) :
+    dictDefinitions (substDoc d) = dictDefinitions d ∧
+    dictModelAliasesRaw (substDoc d) = dictModelAliasesRaw d ∧
+    dictDecays2Copy (substDoc d) = dictDecays2Copy d ∧
+    dictChargeConj (substDoc d) = dictChargeConj d ∧
+    dictAliases (substDoc d) = dictAliases d ∧
+    cdecayNames (substDoc d) = cdecayNames d :=
+  ⟨dictDefinitions_substDoc d, dictModelAliasesRaw_substDoc d, dictDecays2Copy_substDoc d,
+   dictChargeConj_substDoc d, by unfold dictAliases; rw [aliasPairs_substDoc], cdecayNames_substDoc d⟩
+
+/-- MAIN: writing, in every decay line, the model and parameters an alias label stands for, and the
+    literal text (negated for `-w`) a Define'd word stands for, gives the same decay tables
+    (errors included).  No hypothesis on the document. -/
+theorem C05_expand (d : Doc) : tablesDecay (substDoc d) = tablesDecay d := by
+  have h := tables_subst_gen d (dictModelAliasesRaw d) (dictDefinitions d) (subDict_refl _) (subDict_refl _)
+    (Or.inl rfl)
+  unfold tablesDecay at h ⊢
+  rw [dictModelAliasesRaw_substDoc, dictDefinitions_substDoc]
+  exact h
+
+theorem C05_expand_noCC (d : Doc) : tablesNoCC (substDoc d) = tablesNoCC d := by
+  unfold tablesNoCC
+  rw [C05_expand, dictDecays2Copy_substDoc]
+
+theorem C05_expand_tables (db : DB) (o : Opts) (d : Doc) : tables db o (substDoc d) = tables db o d := by
+  unfold tables
+  rw [C05_expand_noCC]
+  congr 1
+  funext t
+  unfold addCC ccSources ccTodo
+  rw [dictChargeConj_substDoc, cdecayNames_substDoc]
+
+/-- the rewritten lines no longer use the definitions: no line of `substDoc d` has an alias label
+    that stands for a written-out model, nor a parameter word `w` / `-w` with `w` Define'd -/
+theorem C05_no_uses (d : Doc) (b : String × List DLine) (hb : b ∈ decayBlocks (substDoc d))
+    (ln : DLine) (hl : ln ∈ b.2) :
+    (∀ l, ln.model = .alias l → ∀ n o, dget (dictModelAliasesRaw (substDoc d)) l ≠ some (.named n o)) ∧
+    (∀ n ps, ln.model = .named n (some ps) → ∀ w, Param.word w ∈ ps →
+      dget (dictDefinitions (substDoc d)) (wordName w) = none) := by
+  rw [dictModelAliasesRaw_substDoc, dictDefinitions_substDoc, ← lineUses_false_iff]
+  obtain ⟨b0, _, _, ln0, _, rfl⟩ := mem_lines_substDoc d b hb ln hl
+  exact lineUses_substLine _ _ _ (textsOf_doc d) ln0
+
+/-- the same as a Boolean check -/
+theorem C05_no_uses_bool (d : Doc) :
+    ((decayBlocks (substDoc d)).all fun b => b.2.all fun ln =>
+      !lineUses (dictModelAliasesRaw (substDoc d)) (dictDefinitions (substDoc d)) ln) = true := by
+  simp only [List.all_eq_true, Bool.not_eq_true']
+  intro b hb ln hl
+  rw [lineUses_false_iff]
+  exact C05_no_uses d b hb ln hl
+
+/-- when every alias label used is defined by a written-out model, every rewritten line has a
+    written-out model -/
+theorem C05_all_named (d : Doc) (h : allAliasesNamed d = true) (b : String × List DLine)
+    (hb : b ∈ decayBlocks (substDoc d)) (ln : DLine) (hl : ln ∈ b.2) : ∃ n o, ln.model = .named n o := by
+  obtain ⟨b0, hb0, _, ln0, h0, rfl⟩ := mem_lines_substDoc d b hb ln hl
+  unfold allAliasesNamed at h
+  simp only [List.all_eq_true] at h
+  exact substLine_named_of_aliasNamed _ _ ln0 (h b0 hb0 ln0 h0)
+
+/-- stronger form: the rewritten lines read with EMPTY dictionaries give the tables of `d`, provided
+    no line that is read uses an alias of an alias (`usedAliasesOK`, decidable); undefined aliases are
+    allowed: both sides are then the same error -/
+theorem C05_expand_standalone (d : Doc) (h : usedAliasesOK d = true) :
+    (dedupLoop (decayBlocks (substDoc d))).mapM (resolveBlock [] []) = tablesDecay d := by
+  apply tables_subst_gen d [] [] (subDict_nil _) (subDict_nil _)
+  right
+  unfold usedAliasesOK at h
+  simp only [List.all_eq_true] at h
+  exact h
+
+/-- ... hence the Define and ModelAlias statements can be deleted after the rewriting -/
+theorem C05_expand_dropDefs (d : Doc) (h : usedAliasesOK d = true) :
+    tablesDecay (dropDefs (substDoc d)) = tablesDecay d := by
+  rw [← C05_expand_standalone d h]
+  unfold tablesDecay
+  rw [decayBlocks_dropDefs, dictDefinitions_dropDefs, dictModelAliasesRaw_dropDefs]
+
+theorem C05_expand_dropDefs_noCC (d : Doc) (h : usedAliasesOK d = true) :
+    tablesNoCC (dropDefs (substDoc d)) = tablesNoCC d := by
+  unfold tablesNoCC
+  rw [C05_expand_dropDefs d h]
+  unfold dictDecays2Copy
+  rw [copyPairs_dropDefs, copyPairs_substDoc]
+
+/-- the hypothesis in the form "every alias label used in a decay line is defined by a ModelAlias
+    with a written-out model" is sufficient -/
+theorem C05_expand_dropDefs_of_allNamed (d : Doc) (h : allAliasesNamed d = true) :
+    tablesDecay (dropDefs (substDoc d)) = tablesDecay d :=
+  C05_expand_dropDefs d (usedAliasesOK_of_allNamed d h)
+
+/-- more generally, any sub-dictionaries will do for the rewritten lines -/
+theorem C05_expand_subdict (d : Doc) (aliases' : List (String × ModelRef)) (defs' : List (String × Rat))
+    (hs : SubDict defs' (dictDefinitions d)) (hsa : SubDict aliases' (dictModelAliasesRaw d))
+    (h : usedAliasesOK d = true) :
+    (dedupLoop (decayBlocks (substDoc d))).mapM (resolveBlock aliases' defs') = tablesDecay d := by
+  apply tables_subst_gen d aliases' defs' hs hsa
+  right
+  unfold usedAliasesOK at h
+  simp only [List.all_eq_true] at h
+  exact h
+
+/-! a concrete document: `x` defined twice (last wins), used as `x` and `-x`; a ModelAlias with a
+    Define'd parameter used in two lines; an undefined word `y` stays -/
+def c05Doc : Doc :=
+  [ .define "x" "0.5",
+    .define "x" "+1.5e1",
+    .define "z" "-2",
+    .modelAlias "MA" (.named "SVS" (some [.word "x", .num "3", .word "-z"])),
+    .decay "B0" [
+      { bf := "0.6", ds := ["K+", "pi-"], photos := false, model := .alias "MA" },
+      { bf := "0.3", ds := ["pi+", "pi-"], photos := true, model := .alias "MA" },
+      { bf := "0.1", ds := ["D-", "pi+"], photos := false,
+        model := .named "HELAMP" (some [.word "x", .word "-x", .word "y", .num "1.0"]) } ],
+    .copyDecay "B0bar" "B0" ]
+
+example : usedAliasesOK c05Doc = true := by decide
+example : allAliasesNamed c05Doc = true := by decide
+example : substDoc c05Doc =
+  [ .define "x" "0.5",
+    .define "x" "+1.5e1",
+    .define "z" "-2",
+    .modelAlias "MA" (.named "SVS" (some [.word "x", .num "3", .word "-z"])),
+    .decay "B0" [
+      { bf := "0.6", ds := ["K+", "pi-"], photos := false,
+        model := .named "SVS" (some [.num "+1.5e1", .num "3", .num "2"]) },
+      { bf := "0.3", ds := ["pi+", "pi-"], photos := true,
+        model := .named "SVS" (some [.num "+1.5e1", .num "3", .num "2"]) },
+      { bf := "0.1", ds := ["D-", "pi+"], photos := false,
+        model := .named "HELAMP" (some [.num "+1.5e1", .num "-1.5e1", .word "y", .num "1.0"]) } ],
+    .copyDecay "B0bar" "B0" ] := by decide
+/-- and the example is read without error (so the equalities above are between proper tables) -/
+example : (tablesDecay c05Doc).isOk = true := by decide
 
 end DL
